@@ -797,6 +797,8 @@ class SymExec(object):
                 sig = self.record_fields(f) or self.signature(f)
                 if sig is not None:
                     args, kws = _positional(sig, args, kws)
+            if f in (('name', 'cast'), ('attr', ('name', 'typing'), 'cast')) and len(args) == 2 and not kws and (f[0] == 'attr' or self.resolve(f, st) is None):
+                return args[1]          # typing.cast(T, v) is v
             if f[0] == 'lambda' and not kws and not any(a_[0] == 'star' for a_ in args) and self.inline:
                 # calling a lambda made on this path: its body, with the arguments for its parameters
                 got_ = st.data.get('lambdas', {}).get(f[1])
